@@ -1,6 +1,8 @@
 package main
 
 import (
+	"fmt"
+
 	"verifharness/internal/hx"
 	"verifharness/internal/rng"
 )
@@ -75,6 +77,23 @@ func generate(h *hx.H) {
 		src := src
 		emit(h, func(*rng.R) docCase { return docCase{W: w0, Src: src, Intent: "any", Tag: "corpus"} })
 	}
+	// the wrapper-chain matrix of SameResponseShape: chain i on Alpha against chain j on Beta under
+	// one response name, leaf and composite named type, both parent orders
+	for _, kind := range []string{"sc", "oc"} {
+		sub := ""
+		if kind == "oc" {
+			sub = "{__typename}"
+		}
+		for i := range shapeChains {
+			for j := range shapeChains {
+				src := fmt.Sprintf("{named{... on Alpha{x: %s%d%s} ... on Beta{x: %s%d%s}}}", kind, i, sub, kind, j, sub)
+				if (i+j)%2 == 1 {
+					src = fmt.Sprintf("{named{... on Beta{x: %s%d%s} ... on Alpha{x: %s%d%s}}}", kind, j, sub, kind, i, sub)
+				}
+				emit(h, func(*rng.R) docCase { return docCase{W: w0, Src: src, Intent: "any", Tag: "corpus-shape"} })
+			}
+		}
+	}
 	// feature gating: the same documents with and without the feature
 	var wGate, wPlain *world
 	for seed := uint64(1); wGate == nil || wPlain == nil; seed++ {
@@ -102,7 +121,7 @@ func generate(h *hx.H) {
 		src := src
 		emit(h, func(*rng.R) docCase { return docCase{W: sw, Src: src, Intent: "any", Tag: "exhaustive"} })
 	}
-	nValid, perMutator, nHostile := 1700, 90, 1000
+	nValid, perMutator, nHostile := 1500, 90, 950
 	if h.Thorough() {
 		nValid, perMutator, nHostile = 40000, 1500, 30000
 	}
